@@ -1,0 +1,71 @@
+//go:build verif
+
+package unused
+
+// Contracts checked by /verif (vcgo). Comment-only: no executable code.
+// C06: unused-import removal deletes whole lines only, exactly the lines of the unused single-type imports.
+
+// one line is deleted: the lines before it stay, the lines after it move up by one, every other file is unchanged
+//@ func removeLine
+//@ requires Readable(path)
+//@ requires 0 <= lineNumber && lineNumber < len(Split(File(path), "\n")) && len(Split(File(path), "\n")) >= 2
+//@ modifies files
+//@ ensures len(Split(File(path), "\n")) == old(len(Split(File(path), "\n"))) - 1
+//@ ensures forall j int :: {Split(File(path), "\n")[j]} 0 <= j && j < lineNumber ==> Split(File(path), "\n")[j] == old(Split(File(path), "\n")[j])
+//@ ensures forall j int :: {Split(File(path), "\n")[j]} lineNumber <= j && j < len(Split(File(path), "\n")) ==> Split(File(path), "\n")[j] == old(Split(File(path), "\n")[j + 1])
+//@ ensures forall q string :: {File(q)} q != path ==> File(q) == old(File(q))
+
+// the lines E[0] < E[1] < ... (1-based) are deleted: what remains are the other lines, in order.
+// After k deletions the text consists of k+1 segments of the original text, segment k being shifted up by k lines.
+//@ spec GapAsc(E []int) bool := forall a int, b int :: {E[a], E[b]} 0 <= a && a < b && b < len(E) ==> E[b] - E[a] >= b - a
+//@ spec SegLo(E []int, k int) int := k == 0 ? 0 : E[k - 1] - k
+//@ spec SegHi(E []int, k int, n int, total int) int := k == n ? total : E[k] - 1 - k
+
+//@ func removeImportByLines
+//@ requires Readable(file)
+//@ requires GapAsc(errorLines) && (len(errorLines) > 0 ==> errorLines[0] >= 1 && errorLines[len(errorLines) - 1] <= len(Split(File(file), "\n")))
+//@ requires len(Split(File(file), "\n")) >= len(errorLines) + 1
+//@ modifies files
+//@ ensures len(Split(File(file), "\n")) == old(len(Split(File(file), "\n"))) - len(errorLines)
+//@ ensures forall k int, j int :: {errorLines[k], Split(File(file), "\n")[j]} 0 <= k && k <= len(errorLines) && SegLo(errorLines, k) <= j && j < SegHi(errorLines, k, len(errorLines), len(Split(File(file), "\n"))) ==>
+//@    Split(File(file), "\n")[j] == old(Split(File(file), "\n")[j + k])
+//@ ensures forall q string :: {File(q)} q != file ==> File(q) == old(File(q))
+//@ loop 1 invariant removedErrorCount == #i + 1 && len(Split(File(file), "\n")) == old(len(Split(File(file), "\n"))) - #i
+//@ loop 1 invariant forall k int, j int :: {errorLines[k], Split(File(file), "\n")[j]} 0 <= k && k <= #i && SegLo(errorLines, k) <= j && j < SegHi(errorLines, k, #i, len(Split(File(file), "\n"))) ==>
+//@    Split(File(file), "\n")[j] == old(Split(File(file), "\n")[j + k])
+//@ loop 1 invariant forall q string :: {File(q)} q != file ==> File(q) == old(File(q))
+
+// which import lines are reported for deletion: exactly those of the imports that are not wildcard imports and whose simple
+// name (the last segment) is not among the names referenced in the file; in the order of the imports
+//@ spec LastSeg(s string) string := Split(s, ".")[len(Split(s, ".")) - 1]
+//@ spec NameUsed(fs map[string]models.JField, last string) bool := last == "*" || (exists k string :: (k in fs) && fs[k].Name == last)
+//@ spec rec NBad(is []models.JImport, fs map[string]models.JField, n int) int := n <= 0 ? 0 : NBad(is, fs, n - 1) + (NameUsed(fs, LastSeg(is[n - 1].Name)) ? 0 : 1)
+//@ axiom NBad_range: forall is []models.JImport, fs map[string]models.JField, n int :: {NBad(is, fs, n)} n >= 0 ==> 0 <= NBad(is, fs, n) && NBad(is, fs, n) <= n
+
+// the import records of a file are on distinct lines, in ascending order, from line 1 on
+//@ spec ImportsAsc(is []models.JImport) bool := (forall a int, b int :: {is[a], is[b]} 0 <= a && a < b && b < len(is) ==> is[a].StartLine < is[b].StartLine) &&
+//@    (forall a int :: {is[a]} 0 <= a && a < len(is) ==> is[a].StartLine >= 1)
+
+//@ func BuildErrorLines
+//@ requires ImportsAsc(models.imports)
+//@ ensures GapAsc(result) && (forall k int :: {result[k]} 0 <= k && k < len(result) ==> result[k] >= 1)
+//@ ensures len(result) > 0 ==> len(models.imports) > 0 && result[len(result) - 1] <= models.imports[len(models.imports) - 1].StartLine
+//@ ensures len(result) <= len(models.imports)
+//@ ensures len(result) == NBad(models.imports, models.fields, len(models.imports))
+//@ ensures forall i int :: {models.imports[i]} 0 <= i && i < len(models.imports) && !NameUsed(models.fields, LastSeg(models.imports[i].Name)) ==>
+//@    result[NBad(models.imports, models.fields, i)] == models.imports[i].StartLine
+//@ loop 1 invariant len(errorLines) == NBad(imports, fields, #i)
+//@ loop 1 invariant GapAsc(errorLines) && (forall k int :: {errorLines[k]} 0 <= k && k < len(errorLines) ==> errorLines[k] >= 1) && len(errorLines) <= #i
+//@ loop 1 invariant len(errorLines) > 0 ==> #i > 0 && errorLines[len(errorLines) - 1] <= imports[#i - 1].StartLine
+//@ loop 1 invariant forall i int :: {imports[i]} 0 <= i && i < #i && !NameUsed(fields, LastSeg(imports[i].Name)) ==> NBad(imports, fields, i) < len(errorLines) && errorLines[NBad(imports, fields, i)] == imports[i].StartLine
+//@ loop 2 invariant isOk <==> (lastField == "*" || (exists k string :: Visited(k) && fields[k].Name == lastField))
+//@ loop 2 invariant len(errorLines) == NBad(imports, fields, #i1)
+//@ loop 2 invariant GapAsc(errorLines) && (forall k int :: {errorLines[k]} 0 <= k && k < len(errorLines) ==> errorLines[k] >= 1) && len(errorLines) <= #i1
+//@ loop 2 invariant len(errorLines) > 0 ==> #i1 > 0 && errorLines[len(errorLines) - 1] <= imports[#i1 - 1].StartLine
+
+// every file with unused imports is cleaned: each node's lines are deleted from that node's file
+//@ method RemoveUnusedImportApp.Refactoring
+//@ requires Readable(currentFile) && ImportsAsc(models.imports)
+//@ requires len(models.imports) > 0 ==> models.imports[len(models.imports) - 1].StartLine <= len(Split(File(currentFile), "\n"))
+//@ requires len(Split(File(currentFile), "\n")) >= len(models.imports) + 1
+//@ modifies files
